@@ -267,7 +267,8 @@ ADDED_I = {
     "C05": ["the spliced stream is also presented before the later connection's application has sent its first byte"],
     "C06": ["two thirds of the attacks on Shadowsocks 2022 servers arrive in one piece (a cut first flight is refused whatever it carries)"],
     "C07": ["well-formed local SOCKS5-UDP datagrams from one socket to a spread of targets (addresses and names, ports above and below one another)"],
-    "C08": ["nodes can be given a descriptor limit that their own open sockets use up; fault: more flows abandoned by their applications toward a silent target than the limit allows (no flood of attacker-held connections in those plans)"],
+    "C08": ["nodes can be given a descriptor limit that their own open sockets use up; fault: more flows abandoned by their applications toward a silent target than the limit allows (no flood of attacker-held connections in those plans)", "QUIC cells: the datagram link is dead for 3-14 s while flows are attempted (their handshakes fall into the outage), then works again"],
+    "C09": ["C09hostile shares C08's catalogue, including the descriptor windows and limits, the abandoned flows and the QUIC link outage"],
     "C10": ["resp-early: the reference server speaks first - a sealed, fresh response that echoes a foreign request salt before the application's first byte; nothing of it may be released"],
     "C11": ["C11late, one plan in eight: the session is a burst of 1100-2500 datagrams sent back to back (more than any queue between the listener and the session's task holds) before the copies arrive; every sampled id of the burst reaches the target exactly once"],
     "C13": ["one plan in five runs after an earlier local connection that sent an unfinished handshake, or a complete request with trailing bytes, and went away"],
